@@ -122,6 +122,7 @@ def check(run, replay):
 
     # ---- streams 5-9: how suppressions are given
     parse_streams(run, model, vh, quick)
+    pairing_stream(run, model, vh, quick)
     documented_forms(run)
 
 
@@ -156,6 +157,42 @@ def parse_streams(run, model, vh, quick):
 
 
 KEY_COLON = "parseLine:colon-without-dot"
+KEY_BEGIN_END = "inline-begin-end:id-not-compared"
+
+
+def pairing_stream(run, model, vh, quick):
+    """begin/end pairing of addInlineSuppressions: model (Supp/PairDefs.v) vs Preprocessor::inlineSuppressions"""
+    import hashlib
+    rng = run.rng
+    stream = "addInlineSuppressions begin/end pairing"
+    n = 2500 if quick else 60000
+    gen = [G.gen_pairing(rng) for _ in range(n)]
+    gen = list({g[0]: g for g in gen}.values())
+    rc1, mo, me = vlib.run_lines([model], [vlib.enc_case(["pair"] + ev) for _, ev in gen])
+    rc2, io, ie = vlib.run_lines([vh, "inlsup"], [vlib.enc_case([src]) for src, _ in gen])
+    if rc1 != 0 or len(mo) != len(gen) or len(io) != len(gen):
+        raise vlib.BuildError("pairing stream failed: %s %s" % (me[-300:], ie[-300:]))
+    shown = 0
+    for (src, ev), a, b in zip(gen, mo, io):
+        m, i = vlib.dec_line(a), vlib.dec_line(b)
+        mb, seen = [], set()
+        for k in range(1, len(m), 4):
+            key = (m[k], m[k + 1], m[k + 2])
+            if key not in seen:       # addSuppression refuses a second block with the same id, symbol and first line
+                seen.add(key)
+                mb.append((m[k], m[k + 1], m[k + 2], m[k + 3]))
+        ib = [(i[k], i[k + 1], i[k + 4], i[k + 5]) for k in range(1, len(i), 7) if i[k + 2] == b"2"]
+        other = [i[k + 2] for k in range(1, len(i), 7) if i[k + 2] != b"2"]
+        ok = m[:1] == i[:1] and mb == ib and not other
+        run.count(stream, None, nontrivial=src, bucket="blocks%d,bad%s" % (len(mb), m[0].decode() if int(m[0]) < 3 else "3+"))
+        if not ok:
+            run.stream(stream)["disagreements"] += 1
+            shown += 1
+            if shown <= 2:
+                run.violation("pairing:" + hashlib.sha1(src).hexdigest()[:12],
+                              "begin/end pairing: model %s bad + %s, preprocessor %s bad + %s" % (vlib.show(m[:1]), vlib.show(mb), vlib.show(i[:1]), vlib.show(ib)),
+                              {"source": src.decode("latin-1"), "model": vlib.show(m), "impl": vlib.show(i),
+                               "how": "echo <hex of source> | build/harness/vh_c23 inlsup"})
 
 
 def documented_forms(run):
@@ -233,6 +270,17 @@ def documented_forms(run):
                 run.violation(key, "the documented form '%s' is %s: rc %d, output %r" % (what, "rejected" if rc else "not effective", rc, out[:200]),
                               {"form": what, "rc": rc, "output": out[:500], "files": {"h.c": '#include "d:x/hdr"', "d:x/hdr": "static void hf(void) { int *p = 0; *p = 1; }"},
                                "how": "cppcheck %s %s" % (" ".join(args) if how != "inline" else "--inline-suppr", target)})
+        # a block is opened for one id and closed for another: nothing documented makes that a
+        # suppression of the second id (manual: -begin aaaa ... -end aaaa)
+        open(os.path.join(d, "f.c"), "w").write("void f(void) {\n    int *p = 0;\n    // cppcheck-suppress-begin uninitvar\n    *p = 1;\n    // cppcheck-suppress-end nullPointer\n}\n")
+        rc, out = run_cpp(["--inline-suppr", "f.c"])
+        ok = "nullPointer" in out or "invalidSuppression" in out
+        run.count(stream, None, nontrivial="begin uninitvar / end nullPointer", bucket="holds" if ok else "deviates")
+        if not ok:
+            run.stream(stream)["disagreements"] += 1
+            run.violation(KEY_BEGIN_END, "'-begin uninitvar' ... '-end nullPointer' hides the nullPointer finding of the block and reports nothing invalid (rc %d, output %r)" % (rc, out[:200]),
+                          {"files": {"f.c": "void f(void) {\n    int *p = 0;\n    // cppcheck-suppress-begin uninitvar\n    *p = 1;\n    // cppcheck-suppress-end nullPointer\n}\n"},
+                           "how": "cppcheck -q --inline-suppr f.c   (prints nothing; without the two comments: nullPointer at f.c:4)"})
     finally:
         shutil.rmtree(d, ignore_errors=True)
 
